@@ -26,7 +26,7 @@ def gen_op(rng, quick):
     size = rng.choice([0, 1, 300000, 600000, 600001, 1500000, 1500000, 3000000, 3000000, 5000000] + ([] if quick else [12000000]))
     ins = ",".join(str(rng.choice([1, 1000, 65536, 131072, 300000, 1000000, 6000000])) for _ in range(rng.randint(1, 3)))
     outs = ",".join(str(rng.choice([1, 100, 5000, 50000, 400000, 8000000])) for _ in range(rng.randint(1, 3)))
-    perturb = rng.choice([0, 1, 1, 2, 3, 4, 5])
+    perturb = rng.choice([0, 1, 1, 2, 3, 4, 5, 6])
     # keep the number of calls in the thousands (a slow-caller schedule sleeps at every caller lock)
     lo = 65536 if perturb == 3 else (700 if size >= 300000 else 1)
     ins = ",".join(str(max(int(x), lo)) for x in ins.split(","))
@@ -37,7 +37,16 @@ def gen_op(rng, quick):
     abort_after = rng.choice([-1, -1, -1, 1, 3, 8])
     mid = rng.choice([0, 0, 0, 7, 1])
     nframes = rng.choice([1, 1, 2, 3])
-    return "mt %d %s %d %d %s %s %d %d %d %d %d" % (workers, frames.pstr(p), size, rng.randrange(1 << 30), ins, outs, perturb, rng.randrange(1 << 30), abort_after, mid, nframes)
+    line = "mt %d %s %d %d %s %s %d %d %d %d %d" % (workers, frames.pstr(p), size, rng.randrange(1 << 30), ins, outs, perturb, rng.randrange(1 << 30), abort_after, mid, nframes)
+    if nframes > 1 and rng.random() < 0.5:
+        # other parameters on the odd frames of the same context: long-distance matching tables of different shapes, job size, level
+        q = dict(p)
+        q[160] = 1; q[101] = rng.choice([18, 20]); q[161] = rng.choice([10, 16, 20]); q[163] = rng.choice([1, 4, 8]); q[401] = rng.choice([524288, 1048576])
+        if 160 in p:
+            p2 = dict(p); p2[161] = q[161]; p2[163] = rng.choice([1, 8])
+            line = line.replace(frames.pstr(p), frames.pstr(p2), 1)
+        line += " " + frames.pstr(q)
+    return line
 
 
 def run_all(exe, ops, timeout=900, env=None):
@@ -88,6 +97,14 @@ def correspondence(ctx):
             evs = lg.split(";")
             ctx.violation("observed execution is not a path of the protocol model: %s -> %s" % (op, verdict), dict(kind="tie-trace-inclusion", op=op, verdict=verdict, events_around=evs[max(0, k - 25):k + 5]), no_input=True)
         stats["accepted"] = acc
+    # ASan+UBSan build (uninstrumented harness) on a sample: tables kept between frames of one context
+    sops = [o for o in ops if int(o.split()[3]) <= 3000000][:12 if quick else 300] + [o for o in ops[-8:] if "163=" in o]
+    hx_san = build.link("zvh_mt", ["zvh_mt.c"], "san", exclude=("pool.c", "zstdmt_compress.c"), extra=["-DZV_NOTRACE"])
+    for op, (rc, out, err) in zip(sops, run_all(hx_san, sops, timeout=1500)):
+        if rc != 0 and "end FAIL hang" not in out:
+            ctx.violation("sanitizer report / crash in the ASan+UBSan build: %s -> %s" % (op, err[-500:]), dict(kind="monitor-san", op=op, stderr=err[-3000:]))
+        elif "end FAIL" in out and "hang" not in out:
+            ctx.violation("multithreaded compression failed in the ASan+UBSan build: %s -> %s" % (op, out.strip().split("\n")[-1]), dict(kind="monitor-san", op=op))
     # ThreadSanitizer on a sample (no interposition-dependent behaviour: same harness, tsan variant)
     tops = ops[:14] if quick else ops[:400]
     tops = [o for o in tops if int(o.split()[3]) <= 3000000][:10 if quick else 300]
